@@ -598,6 +598,9 @@ def run(ctx: Ctx) -> None:
     from . import c15
     c15.r15_10(ctx, rule="R08.16")  # an append session that fails in its first or last step leaves the archive it found
     shared.layout_agreement(ctx, "R08.15")
+    shared.field_order_agreement(ctx, "R08.18")  # what an append writes back for records py7zr itself never produces (complex coders) must read back
+    from . import c10 as _c10
+    _c10.r10_15(ctx, rule="R08.19")  # the EmptyFile vector written back holds one bit per member with an empty stream
     r08_14(ctx)
     r08_13(ctx)
     r08_12(ctx)
